@@ -7,7 +7,7 @@
 From Coq Require Import List String ZArith NArith Bool.
 Import ListNotations.
 From DV Require Import Model.Tree Model.Tables Model.Skeleton Model.FragSkel Model.Values Model.Link Model.Fragment Model.Decorate Model.Restore
-     Proofs.LinkProofs Proofs.LinkPanic Proofs.LinkLocal Proofs.LinkOrder Proofs.FragProofs Proofs.RestoreProofs
+     Proofs.LinkProofs Proofs.LinkPanic Proofs.LinkLocal Proofs.LinkOrder Proofs.LinkCount Proofs.FragProofs Proofs.RestoreProofs
      Proofs.FragReach Proofs.DecReach Proofs.Pipeline Proofs.RestReach Proofs.EndToEnd
      Gen.Universe Gen.DataTbl Gen.FragTbl Gen.RestTbl Gen.DecTbl.
 Local Open Scope string_scope.
@@ -96,6 +96,16 @@ Theorem C03_comments_are_attached_in_order :
   forall c1 c2 j1 j2, (c1 < c2)%nat -> att (link fs) c1 j1 -> att (link fs) c2 j2 -> (j1 <= j2)%nat.
 Proof. exact link_attaches_in_order. Qed.
 
+(* ... and exactly once: for every fragment list in which no comment is attached yet, if link does
+   not panic, every comment text occurs in the decoration lists exactly as often as among the comment
+   fragments -- no comment is duplicated, none is lost. *)
+Theorem C03_each_comment_stored_exactly_once :
+  forall fs,
+  (forall c d ind a, nth_error fs c = Some (FCom d ind a) -> a = None) ->
+  l_panic (link fs) = false ->
+  forall u, cnt u (decs_uids (l_decs (link fs))) = cnt u (comment_frag_uids fs).
+Proof. exact link_stores_each_comment_once. Qed.
+
 (* link does not panic when every comment and newline fragment lies in a token-delimited
    segment that holds a decoration fragment (seg_ok is evaluated on every fragment list of the
    correspondence: mismatch_seg). *)
@@ -182,6 +192,7 @@ Print Assumptions C03_every_comment_attached.
 Print Assumptions C03_every_comment_kept.
 Print Assumptions C03_no_comment_crosses_a_token.
 Print Assumptions C03_comments_are_attached_in_order.
+Print Assumptions C03_each_comment_stored_exactly_once.
 Print Assumptions C03_link_does_not_panic.
 Print Assumptions C03_sort_keeps_every_fragment.
 Print Assumptions C03_decorate_keeps_every_comment.
